@@ -57,9 +57,10 @@ class World:
 
 
 # event kinds
-E_FWD, E_FWD_REL, E_FWD_ACK, E_INJ, E_INJ_REL, E_DROP_REL_ACK, E_PACKETACK, E_TIMER = range(8)
-NE = 8
-KINDS = ["fwd", "fwd_reliable", "fwd_with_ack", "inject", "inject_reliable", "drop_reliable_with_ack", "packetack", "timer"]
+E_FWD, E_FWD_REL, E_FWD_ACK, E_INJ, E_INJ_REL, E_DROP_REL_ACK, E_PACKETACK, E_TIMER, E_PACKETACK_PLUS = range(9)
+NE = 9
+KINDS = ["fwd", "fwd_reliable", "fwd_with_ack", "inject", "inject_reliable", "drop_reliable_with_ack", "packetack", "timer",
+         "packetack_plus_appended"]
 
 
 def step(f, w: World, dropper, kind, outgoing, pick):
@@ -103,16 +104,26 @@ def step(f, w: World, dropper, kind, outgoing, pick):
         return got == exp and all(x.flags & RESENT and x.flags & REL for x in new)
     # events that are packets from an endpoint: choose the acks it carries among wire ids it has RECEIVED
     acks = ()
+    body_ids = ()
     received = r.seen_wire
-    if kind in (E_FWD_ACK, E_DROP_REL_ACK, E_PACKETACK):
+    if kind in (E_FWD_ACK, E_DROP_REL_ACK, E_PACKETACK, E_PACKETACK_PLUS):
         if not received:
             return True                       # nothing to acknowledge yet: event not applicable
         acks = (received[pick % len(received)],)
+    if kind == E_PACKETACK_PLUS:
+        # a PacketAck whose body acknowledges one received id and which also carries an appended ack for another
+        if len(received) < 2:
+            return True                       # needs two distinct received ids: not applicable yet
+        body_ids = acks
+        acks = (received[(pick + 1) % len(received)],)
     own = s.next_own
     s.next_own += 1
     reliable = kind in (E_FWD_REL, E_DROP_REL_ACK)
     if kind == E_PACKETACK:
         msg = Message("PacketAck", *[Block("Packets", ID=a) for a in acks], packet_id=own, flags=0, direction=d)
+    elif kind == E_PACKETACK_PLUS:
+        msg = Message("PacketAck", *[Block("Packets", ID=a) for a in body_ids], packet_id=own, flags=ACK, acks=acks,
+                      direction=d)
     else:
         msg = px.chat(own, reliable=reliable, outgoing=outgoing, acks=acks)
     if kind == E_DROP_REL_ACK:
@@ -122,7 +133,8 @@ def step(f, w: World, dropper, kind, outgoing, pick):
     # what the acks mean in the model: acks of injected ids stay inside the proxy (and complete the injection's future),
     # the others are translated back to the receiver's own ids
     shown = []
-    for a in acks:
+    all_acked = list(dict.fromkeys(tuple(body_ids) + tuple(acks)))
+    for a in all_acked:
         if a in r.injected:
             st = w.pending.pop((rd, a), None)
             if st is not None and not st[0].done():
@@ -156,6 +168,21 @@ def step(f, w: World, dropper, kind, outgoing, pick):
         if fwd and fwd[0].packet_id != own:
             return False
         return True
+    if kind == E_PACKETACK_PLUS:
+        # every acknowledged non-injected id reaches the receiver exactly once (in the body or appended), injected ones never
+        if not shown:
+            s.highest = max(s.highest, wire)
+            return not new
+        if len(new) != 1 or new[0].obj is not msg or new[0].packet_id != wire:
+            return False
+        got = sorted(list(new[0].ids) + list(new[0].acks))
+        if got != sorted(shown):
+            return False
+        s.wire_of[own] = wire
+        s.own_of[wire] = own
+        s.seen_wire.append(wire)
+        s.highest = max(s.highest, wire)
+        return all(a in r.wire_of for a in shown)
     if kind == E_PACKETACK and not shown:
         # an ack purely for injected packets never leaves the proxy (its id was still consumed by the endpoint)
         s.highest = max(s.highest, wire)
